@@ -76,6 +76,7 @@ _TEST_TMPL = '''package %(pkgname)s
 import (
 	"fmt"
 	"os"
+	"strconv"
 	"testing"
 
 	"compiler/internal/verifrt"
@@ -95,6 +96,12 @@ func TestZZVerifReplay(t *testing.T) {
 		}
 	}()
 	fn()
+	if n, _ := strconv.Atoi(os.Getenv("VERIF_REPEAT")); n > 1 {
+		// schedule-dependent counterexample: repeat the harness until the assertion fails once
+		for i := 1; i < n && len(verifrt.Failures) == 0; i++ {
+			fn()
+		}
+	}
 	for _, f := range verifrt.Failures {
 		fmt.Printf("VERIF-REPLAY: assertion failed: %%s\\n", f)
 	}
@@ -136,6 +143,8 @@ def replay(pkg_path, pkg_rel, harness, model):
     env = build.goenv()
     env['VERIF_MODEL'] = mf
     env['VERIF_HARNESS'] = harness
+    if any(k.startswith('sched') for k in model):
+        env['VERIF_REPEAT'] = '30000'     # the counterexample depends on the schedule: stress replay
     env['CGO_ENABLED'] = '0'
     from . import runner as _r
     env['VERIF_TIER'] = _r.tier()
